@@ -170,7 +170,7 @@ _REPLACE = {
 _ADD = {
  "C01": " Built later: COUNT and UNTIL together, nth-weekday ordinals up to 53 in every scope, BYSETPOS +-366 with an all-days BYDAY, every month named by some BYMONTH value, a start whose hour, minute and second lie in different residue classes.",
  "C03": " Built later: every yearday / nlyearday value 0..367, alone and with nine companion fields, resolved by the reference's own calendar arithmetic.",
- "C05": " Built later: hand-written PEP 495 tzinfo classes (no is_ambiguous of their own; honest and flat dst()) over the same timelines, so that the library's generic classification code is judged as well.",
+ "C05": " Rule zones: deviation bound 3 in both tiers (the thorough tier spends its budget on probe density). Built later: hand-written PEP 495 tzinfo classes (no is_ambiguous of their own; honest and flat dst()) over the same timelines, so that the library's generic classification code is judged as well.",
  "C04": " Built later: probes reach past a final transition at 2^31-1; rule times with seconds; Monday rules; a naive conversion result is a violation of its own.",
  "C08": " Built later: hh:mm:ss rule times, Monday rules, standard time named GMT/UTC, names without an offset, every separator-terminated proper prefix of four valid strings as malformed input.",
  "C09": " Built later: aware pairs in a zone with DST on both sides of its transitions; years and months of the result may not have opposite signs.",
